@@ -2039,7 +2039,10 @@ public:
     SBEPP_CPP14_CONSTEXPR random_access_iterator&
         operator+=(difference_type n) noexcept
     {
-        ptr += n * block_length;
+        // `n` can be negative, the product must not be evaluated in an
+        // unsigned type narrower than a pointer
+        ptr += static_cast<std::ptrdiff_t>(n)
+               * static_cast<std::ptrdiff_t>(block_length);
         index += n;
         return *this;
     }
